@@ -170,6 +170,12 @@ func sequential(c *hl.Ctx, w *recWriter) {
 	alias := logger.AliasContext(bg, lib)
 	child, cancel := context.WithCancel(lib)
 	defer cancel()
+	// an alias made on top of a parent that already carries another id (e.g. a listener's context) still carries its source's id
+	listener := logger.WithContext(bg)
+	lchild, cancel2 := context.WithCancel(listener)
+	defer cancel2()
+	aliasOnto := logger.AliasContext(lchild, lib)
+	aliasOnto2 := logger.AliasContext(listener, child)
 	type ck struct {
 		name string
 		ctx  logger.Context
@@ -180,6 +186,8 @@ func sequential(c *hl.Ctx, w *recWriter) {
 		{"lib", lib, expect{kind: "lib", cid: libcid}},
 		{"alias", alias, expect{kind: "lib", cid: libcid}},
 		{"child-of-lib", child, expect{kind: "lib", cid: libcid}},
+		{"alias-onto-parent-with-other-id", aliasOnto, expect{kind: "lib", cid: libcid}},
+		{"alias-of-child-onto-parent-with-other-id", aliasOnto2, expect{kind: "lib", cid: libcid}},
 		{"obj", cidObj(77), expect{kind: "obj", cid: "77"}},
 		{"obj0", cidObj(0), expect{kind: "obj", cid: "0"}},
 		{"objneg", cidObj(-5), expect{kind: "obj", cid: "-5"}},
@@ -369,7 +377,7 @@ func run(c *hl.Ctx) {
 	os.Stdout = devnull
 	w := &recWriter{}
 	logger.Switch(closerWriter{w})
-	c.Rule("E1: every interleaving (within the reported preemption bound; -1 = unbounded) of N goroutines calling WithContext/AliasContext and logging, scheduling points at the split read and write of the shared id counter (R4) and at any lock (R1); sequential sweep of 10 log functions x 8 context kinds x 7 messages. A state = distinct observable outcome (relative ids per goroutine); transition = scheduling step or logging call.")
+	c.Rule("E1: every interleaving (within the reported preemption bound; -1 = unbounded) of N goroutines calling WithContext/AliasContext and logging, scheduling points at the split read and write of the shared id counter (R4) and at any lock (R1); sequential sweep of 10 log functions x 10 context kinds (incl. aliases onto a parent carrying another id) x 7 messages. A state = distinct observable outcome (relative ids per goroutine); transition = scheduling step or logging call.")
 	c.Assume("accesses other than the instrumented counter/lock operations are judged by the separate free-running race-detector pass", "log lines are observed through a writer installed with logger.Switch", "the Info level is discarded by design: zero writes allowed for I/If")
 	if c.Mode() == "race" {
 		racePass(c, w)
